@@ -3,7 +3,9 @@ package props
 import (
 	"bytes"
 	"context"
+	"encoding/hex"
 	"fmt"
+	"github.com/indexsupply/shovel/shovel/glf"
 	"io"
 	"log/slog"
 	"os"
@@ -121,8 +123,8 @@ func twoSourceManager(ctx context.Context, rr *core.Rand, s int) string {
 	igl.Sources = []config.Source{{Name: "sa", Start: 1}, {Name: "sb", Start: 1}}
 	conf := config.Root{
 		Sources: []config.Source{
-			{Name: "sa", ChainID: 1, URLs: []string{n1.URL()}, PollDuration: 3 * time.Millisecond, BatchSize: 4, Concurrency: 2},
-			{Name: "sb", ChainID: 2, URLs: []string{n2.URL()}, PollDuration: 3 * time.Millisecond, BatchSize: 4, Concurrency: 2}},
+			{Name: "sa", ChainID: 1, URLs: []string{n1.URL()}, PollDuration: 3 * time.Millisecond, BatchSize: 8, Concurrency: 4},
+			{Name: "sb", ChainID: 2, URLs: []string{n2.URL()}, PollDuration: 3 * time.Millisecond, BatchSize: 8, Concurrency: 4}},
 		Integrations: []config.Integration{ig, igl},
 	}
 	if err := config.ValidateFix(&conf); err != nil {
@@ -317,6 +319,31 @@ func runC18(e *core.Env) error {
 	for s := 0; s < e.N(8, 24); s++ {
 		out := twoSourceManager(ctx, r.Fork(), s)
 		e.Add(core.Case{Impl: out, Spec: "ok", Key: fmt.Sprintf("c18-two-sources %d", s), Nontrivial: true, Tags: []string{"scenarios", "one-declaration-two-sources-through-loadTasks"}})
+	}
+	// (F) what Task.load does on the FIRST step of every task: one fresh data plan (*glf.Filter) handed to all
+	// partition goroutines of the step, released together, on a plan without header cache; verbose logging on
+	{
+		chain := transferChain(12, uint64(77+e.Seed))
+		node := simnode.NewNode(chain)
+		cl := jrpc2.New(node.URL()).WithMaxReads(3).WithPollDuration(time.Hour)
+		for it := 0; it < e.N(60, 300); it++ {
+			flt := glf.New([]string{"log_idx", "tx_idx", "block_num"}, nil, [][]string{{"0x" + hex.EncodeToString(transferEvent.SignatureHash())}})
+			var wg sync.WaitGroup
+			gate := make(chan struct{})
+			for g := 0; g < 4; g++ {
+				g := g
+				wg.Add(1)
+				go func() {
+					defer wg.Done()
+					<-gate
+					core.Protect(func() string { cl.Get(ctx, node.URL(), flt, uint64(1+2*g), 2); return "" })
+				}()
+			}
+			close(gate)
+			wg.Wait()
+		}
+		node.Close()
+		e.Add(core.Case{Impl: "ran", Spec: "ran", Key: "c18-fresh-plans", Nontrivial: true, Tags: []string{"scenarios", "fresh-plan-shared-by-partitions"}})
 	}
 	// (D) the manager with restarts
 	for s := 0; s < e.N(3, 20); s++ {
